@@ -101,6 +101,9 @@ func extractTopLevelFields(blob []byte) ([]rawField, error) {
 	if err != nil {
 		return nil, wrapInvalid(err)
 	}
+	if err := plausibleLen(n, r); err != nil {
+		return nil, err
+	}
 	out := make([]rawField, 0, n)
 	for i := 0; i < n; i++ {
 		code, err := dec.PeekCode()
